@@ -98,7 +98,7 @@ func enumerate(thorough bool) (sp spaces, extra map[string]any) {
 	for _, cmd := range commands {
 		for _, ex := range exs {
 			for _, so := range sos {
-				if so.Pad || so.Garbage || (so.MetaOnly && cmd != "get-plugin-metadata") {
+				if so.Pad || so.Garbage || so.PairOnly || (so.MetaOnly && cmd != "get-plugin-metadata") {
 					continue
 				}
 				for _, se := range ses {
@@ -111,7 +111,7 @@ func enumerate(thorough bool) (sp spaces, extra map[string]any) {
 		}
 	}
 	for _, so := range sos {
-		if !so.Pad && !so.Garbage {
+		if !so.Pad && !so.Garbage && !so.PairOnly {
 			nso++
 		}
 	}
@@ -371,7 +371,7 @@ func main() {
 		return
 	}
 	r := hx.New("C17")
-	r.Rule = "E3: every behaviour tuple (command, exit, stdout kind, stderr kind, timing, context, request size) of the stated alphabet is run once as a real process through the real CLIPlugin: full product command x exit x stdout x stderr for the cheap kinds; oversized streams (65 MiB, 512 MiB) and timing/context behaviours crossed with one representative of the other dimensions, except 'complete stderr, then sleeps past the end of the context' (and its SIGTERM-ignoring twin), which is crossed with the whole stderr alphabet for every command and every ending context. Non-trivial = distinct tuples on which at least one judged clause applied (success forbidden / control / error type / cap / bounded delay)."
+	r.Rule = "E3: every behaviour tuple (command, exit, stdout kind, stderr kind, timing, context, request size) of the stated alphabet is run once as a real process through the real CLIPlugin: full product command x exit x stdout x stderr for the cheap kinds; oversized streams (65 MiB, 512 MiB) and timing/context behaviours crossed with one representative of the other dimensions, except 'complete stderr, then sleeps past the end of the context' (and its SIGTERM-ignoring twin), which is crossed with the whole stderr alphabet for every command and every ending context. Overlapping pairs: every ordered pair of a 7-member behaviour alphabet per command, call B run completely inside A's k-th log call (k=1..3, caller-supplied logger as the seam) or right after A (k=4), each call judged as if alone; a free-running concurrent-callers family is supplementary (Extra). Non-trivial = distinct tuples on which at least one judged clause applied (success forbidden / control / error type / cap / bounded delay)."
 	r.Assumptions = []string{
 		"stdout/stderr kinds are hand-labelled (honest, invalid-metadata:<clause>, undecodable, oversize, unjudged; structured:<code>, unstructured, huge); the oracle never parses a reply",
 		"null, {} and replies with extra members are recorded but not judged on the non-metadata commands; an honest reply with noise on stderr and exit 0 may be refused (implication)",
@@ -410,6 +410,14 @@ func main() {
 					r.Infra("panic in the code under test: %v\n%s", v, debug.Stack())
 				}
 			}()
+			if c.Other != nil {
+				resA, resB, bRan := runOverlap(d.root, d.nextID("o"), c)
+				d.recordOverlap(c, resA, resB, bRan, true)
+				if r.Violations() == 0 {
+					fmt.Println("replay: holds")
+				}
+				return
+			}
 			d.record(c, d.run(c), true)
 		}()
 		finish()
@@ -445,7 +453,7 @@ func main() {
 	if r.Thorough() {
 		r.SetDeadline(9 * time.Minute)
 	} else {
-		r.SetDeadline(42 * time.Second)
+		r.SetDeadline(36 * time.Second)
 	}
 	t0 := time.Now()
 	var bwg sync.WaitGroup
@@ -474,13 +482,46 @@ func main() {
 		r.Infra("panic in the code under test on %s: %v\n%s", sp.cheap[i].key(), v, stack)
 	})
 	r.Extra["phase_cheap_product_s(informational)"] = time.Since(t0).Seconds()
+	// overlapping pairs through the logger seam (deterministic family)
+	t1 := time.Now()
+	ov := enumerateOverlap(r.Thorough())
+	r.Extra["cases_overlapping_pairs"] = len(ov)
+	r.Parallel(len(ov), func(i int) {
+		if r.Expired() {
+			d.skipped.Add(1)
+			return
+		}
+		resA, resB, bRan := runOverlap(d.root, d.nextID("o"), ov[i])
+		d.recordOverlap(ov[i], resA, resB, bRan, false)
+	}, func(i int, v any, stack string) {
+		r.Infra("panic in the code under test on %s: %v\n%s", ov[i].key(), v, stack)
+	})
+	r.Extra["phase_overlapping_pairs_s(informational)"] = time.Since(t1).Seconds()
 	bwg.Wait()
 	r.Extra["phase_oversize_s(informational)"] = bigSecs
 	t0 = time.Now()
 	twg.Wait()
 	r.Extra["phase_wait_for_timing_cases_s(informational)"] = time.Since(t0).Seconds()
+	// supplementary, free-running: concurrent callers (a miss proves nothing; a hit is a violation)
+	t1 = time.Now()
+	rounds := 6
+	if r.Thorough() {
+		rounds = 40
+	}
+	var tot concStats
+	for _, g := range []int{2, 4, 8} {
+		for _, procs := range []int{1, 2, g} {
+			st := d.runConcurrent(g, rounds, procs)
+			tot.Groups += st.Groups
+			tot.Calls += st.Calls
+			tot.Mismatches += st.Mismatches
+		}
+	}
+	r.Extra["supplementary_concurrent_family(free-running, not exhaustive)"] = map[string]any{
+		"caller_groups": tot.Groups, "callers_per_group": []int{2, 4, 8}, "GOMAXPROCS": "1, 2, callers", "rounds_per_group": rounds,
+		"calls": tot.Calls, "calls_not_as_alone": tot.Mismatches, "seconds": time.Since(t1).Seconds()}
 	if n := d.skipped.Load(); n > 0 {
-		r.Capped(fmt.Sprintf("internal deadline reached on a loaded machine: all %d timing/context cases and %d of the %d cheap/oversize cases were run, %d skipped", len(sp.timing), len(sp.cheap)+len(sp.big)-int(n), len(sp.cheap)+len(sp.big), n))
+		r.Capped(fmt.Sprintf("internal deadline reached on a loaded machine: all %d timing/context cases and %d of the %d cheap/oversize/overlap cases were run, %d skipped", len(sp.timing), len(sp.cheap)+len(sp.big)+len(ov)-int(n), len(sp.cheap)+len(sp.big)+len(ov), n))
 	}
 	r.Extra["context_kill_cases_rerun_with_doubled_delay(informational)"] = d.retries.Load()
 
